@@ -119,9 +119,10 @@ func judge(m *mp.Model, doc *c02.ClassF, rs ruleSet, impl []implPage, seed uint6
 		if p.blank && i+1 < n && impl[i+1].blank {
 			add("blank-twice", "", fmt.Sprintf("pages %d and %d are both blank", i, i+1))
 		}
-		want := fmt.Sprintf("%d/%d", i+1, n)
-		if len(p.margin) != 1 || p.margin[0] != want {
-			add("page-counter", "", fmt.Sprintf("page %d: margin box shows %v, expected %s", i, p.margin, want))
+		// the page counter is the page's position, `pages` the total, in every margin box; a margin box's
+		// own counter-increment / -reset / -set changes what that box shows and nothing else
+		if why := marginDiff(rs.mboxes, p.marginBy, i+1, n); why != "" {
+			add("page-counter", "", fmt.Sprintf("page %d: %s", i, why))
 		}
 	}
 	if n > 0 {
